@@ -406,7 +406,7 @@ def replay(harness, inp):
             cm.CMapDB._umap_cache.clear()
             cm.CMapDB._umap_cache.update(c2)
     if harness == "H3_unichr":
-        return "add_cid2unichr sample %r differs" % inp["i"]
+        return core.replay_by_choices(h3_unichr, {}, inp["_choices"])
     if harness == "H4_widths":
         import pdfminer.pdffont as pf
         from lib.core import fl
